@@ -12,6 +12,8 @@
 //!   var <keyhex> ok <hex>|missing|notunicode          env::var(key)   (only for UTF-8 keys)
 //!   varu <keyhex> ok <hex>|missing|notunicode         env::var_unix(key)
 //!   uid <n> / gid <n> / random <hex>|none / execfn <hex>|none
+//!   reloc <i> <hex>                   the strings two pointer tables (one in .data.rel.ro, one in .data)
+//!                                     point to - every table word needs a RELATIVE relocation in PIE modes
 //!   clock mono|real <s> <ns> <s> <ns> <s> <ns>        syscall, tiny-std (vDSO when found), syscall
 //!   done
 #![no_std]
@@ -89,6 +91,35 @@ fn content(u: &UnixStr) -> &[u8] {
     &s[..s.len() - 1]
 }
 
+/// Pointer tables: in the position-independent link modes every entry is a word that start-up
+/// relocation has to fix up (R_X86_64_RELATIVE).  The read-only one lands in .data.rel.ro, the
+/// mutable one in .data - lib/checks/c07.py reports where they lie among the relocated words.
+static TABLE_RO: [&[u8]; 8] = [b"ro0", b"ro1", b"ro2", b"ro3", b"ro4", b"ro5", b"ro6", b"ro7"];
+static mut TABLE_RW: [&[u8]; 8] = [b"rw0", b"rw1", b"rw2", b"rw3", b"rw4", b"rw5", b"rw6", b"rw7"];
+// A third table in a "large" data section (SHF_X86_64_LARGE): the linker places such sections behind
+// .bss, so these are the words with the highest addresses that need relocation - the LAST entries of
+// .rela.dyn (without it the last entry is DW.ref.rust_eh_personality, which nothing reads).
+core::arch::global_asm!(
+    ".section .rodata.verif_last_strs,\"a\",@progbits",
+    "verif_la0: .asciz \"la0\"",
+    "verif_la1: .asciz \"la1\"",
+    "verif_la2: .asciz \"la2\"",
+    "verif_la3: .asciz \"la3\"",
+    ".section .ldata.verif_last,\"awl\",@progbits",
+    ".p2align 3",
+    ".globl VERIF_TABLE_LAST",
+    ".hidden VERIF_TABLE_LAST",
+    "VERIF_TABLE_LAST:",
+    ".quad verif_la0",
+    ".quad verif_la1",
+    ".quad verif_la2",
+    ".quad verif_la3",
+    ".text"
+);
+extern "C" {
+    static VERIF_TABLE_LAST: [*const u8; 4];
+}
+
 static mut INP: [u8; 1 << 15] = [0; 1 << 15];
 
 fn read_stdin() -> &'static [u8] {
@@ -163,6 +194,24 @@ pub fn main() -> i32 {
         None => puts("none"),
     }
     putb(b'\n');
+    // ---- relocated pointer tables
+    for i in 0..20usize {
+        let s: &[u8] = unsafe {
+            if i < 8 {
+                core::ptr::addr_of!(TABLE_RO).cast::<&[u8]>().add(core::hint::black_box(i)).read_volatile()
+            } else if i < 16 {
+                core::ptr::addr_of!(TABLE_RW).cast::<&[u8]>().add(core::hint::black_box(i - 8)).read_volatile()
+            } else {
+                let p = core::ptr::addr_of!(VERIF_TABLE_LAST).cast::<*const u8>().add(core::hint::black_box(i - 16)).read_volatile();
+                core::slice::from_raw_parts(p, 3)
+            }
+        };
+        puts("reloc ");
+        putu(i as u64);
+        putb(b' ');
+        puthex(s);
+        putb(b'\n');
+    }
     // ---- clocks: direct system call, tiny-std's clock (vDSO function when it was found), system call
     {
         let t1 = rusl::time::clock_get_monotonic_time();
